@@ -142,9 +142,11 @@ private:
         for (auto& a : e.kids[0]->kids) {
           TR d = elemOf(*a->kids[1], a.get(), "invalid-type-operation"); if (!d.ok()) { funcDecl = false; return d; }
           TR r = declare(*a->kids[0], d.t, true); if (!r.ok()) { funcDecl = false; return r; }
+          // the declared arguments are the parameters in order, whatever bound variables their domains declared before
+          // them (also under the same name)
+          if (a->kids[0]->id == TID::ID_LOCAL) declaredArgs.emplace_back(a->kids[0]->name, d.t);
         }
         funcDecl = false;
-        for (auto& l : locals) if (l.isArg) declaredArgs.emplace_back(l.name, l.type);
         TR body = ty(*e.kids[1], &e); if (!body.ok()) return body;
         endScope();
         return body;
